@@ -648,7 +648,9 @@ def r4_markers(ctx, F):
         from rules import c18
         paths = [[(t_, l_) for (t_, l_) in pf if not t_.startswith("discr(Result::branch")] for pf in c18.path_facts(b, v, mk[0].bb)]
         free = lambda pf: any(t_.startswith("Eq(0, FileSystem::lookup(self, ctx, parent, name)?.inode)") and l_ != 0 for (t_, l_) in pf) or \
-            any(t_.startswith("Eq(ENOENT, some(Error::raw_os_error(FileSystem::lookup(self, ctx, parent, name)") and l_ != 0 for (t_, l_) in pf)
+            any(t_.startswith("Eq(ENOENT, some(Error::raw_os_error(FileSystem::lookup(self, ctx, parent, name)") and l_ != 0 for (t_, l_) in pf) or \
+            any(t_.startswith("PartialEq::ne(Error::raw_os_error(FileSystem::lookup(self, ctx, parent, name)") and l_ == 0 for (t_, l_) in pf) or \
+            any(t_.startswith("PartialEq::eq(Error::raw_os_error(FileSystem::lookup(self, ctx, parent, name)") and l_ != 0 for (t_, l_) in pf)
         ctx.check(rule, "whiteout/writer-only-free-names", bool(paths) and all(free(pf) for pf in paths) and len(paths) == 2,
                   "Layer::create_whiteout reaches mknod on %d paths; each must have established that the name is free (lookup gave inode 0, or failed with ENOENT): %s"
                   % (len(paths), [[(t_[:40], l_) for (t_, l_) in pf][-2:] for pf in paths]), loc=mk[0].loc())
